@@ -60,9 +60,13 @@ def pick_id(rng, sess, retired):
     return rng.choice([0, 1, 2, 3, 7, 99, -1])
 
 
+# result codes that are NOT saslBindInProgress (14) but become 14 when truncated to 8 / 16 / 32 / 64 bits, or have 14 as their magnitude
+NEAR14 = [14 + 2**32, 14 - 2**32, 14 + 2**64, 14 + 256, 14 + 65536, -14, 14 - 2**64]
+
+
 def g_server_call(rng, sess, retired):
     i = pick_id(rng, sess, retired)
-    code = rng.choice([0, 0, 0, 14, 49, 2, 4096])
+    code = rng.choice([0, 0, 0, 14, 49, 2, 4096, 14, rng.choice(NEAR14)])
     r = rng.random()
     base = {"id": i, "controls": small_controls(rng)}
     if r < 0.25:
@@ -107,8 +111,8 @@ def crafted_for_client(rng, client, retired):
     op = gen.g_op(rng, kind, depth=1)
     if kind == "extResp" and rng.random() < 0.3:
         op["name"] = C.tx(NOTICE)
-    if kind == "bindResp" and rng.random() < 0.4:
-        op["res"]["code"] = 14
+    if kind == "bindResp" and rng.random() < 0.55:
+        op["res"]["code"] = 14 if rng.random() < 0.7 else rng.choice(NEAR14)
     m = {"id": i, "op": op, "controls": []}
     return C.msg_from_json(m).pack(M.PackingOptions()), m
 
@@ -239,6 +243,19 @@ def ev_of_msgjson(m):
     if k == "bindResp":
         return "bindContinue" if op["res"]["code"] == 14 else "bindDone"
     if k == "extResp" and op.get("name") is not None and C.untx(op["name"]) == NOTICE:
+        return "terminate"
+    return "traffic"
+
+
+def ev_of_call(call):
+    k = call["k"]
+    if k == "unbind":
+        return "terminate"
+    if k == "bind":
+        return "bindStart"
+    if k == "bindResponse":
+        return "bindContinue" if call["code"] == 14 else "bindDone"
+    if k == "extendedResponse" and call.get("name") is not None and C.untx(call["name"]) == NOTICE:
         return "terminate"
     return "traffic"
 
@@ -428,11 +445,18 @@ def monitor(reqs, replies, roles):
         else:
             evs = []
             if k == "receive" and ok == "msgs":
-                evs = [ev_of_msgjson(m) for m in out["ms"]]
+                # what arrived, as the BYTES say (message kinds from the library's decode, bind result codes read by the harness's own TLV
+                # reader) when the delivery was one or more complete messages on an empty buffer; else the library's decode
+                seen = [q["_single"]] if q.get("_single") is not None and not tail_before else q.get("_units") if q.get("_units") and not tail_before else None
+                if seen is not None and len(seen) == len(out["ms"]):
+                    evs = [ev_of_msgjson(m) for m in seen]
+                else:
+                    evs = [ev_of_msgjson(m) for m in out["ms"]]
             elif k == "receive" and ok == "ProtocolError":
                 evs = ["terminate"]
             elif is_send and accepted:
-                evs = [ev_of_msgjson(C.msg_to_json(call_message(call, out.get("id") or 0)))]
+                # the event the CALL stands for (its arguments, not what the library made of them)
+                evs = [ev_of_call(call)]
             st = before["state"]
             for e in evs:
                 st = spec_next(st, e)
@@ -689,6 +713,11 @@ def scripted_histories():
     for first in (ext_c, srch_c, bind_c):
         for nid in (1, 0, 5):
             hist(("c", first), ("c", rx(ad_notice(nid))), ("c", ext_c), ("c", rx(ext2)))
+    # a final bind response whose result code is not 14 but turns into 14 under truncation: the bind is over, on both sides
+    for code in NEAR14:
+        hist(("s", rx(bind_req(1, sasl))), ("s", bind_resp(1, code)), ("s", rx(ext_req(2))), ("s", ext_resp(2)), ("s", bind_resp(1, 0)))
+        final = pk({"id": 1, "op": {"k": "bindResp", "res": res(code), "sasl": None}, "controls": []})
+        hist(("c", bind_c), ("c", rx(final)), ("c", ext_c), ("c", rx(ext2)), ("c", rx(final)))
     # server in the middle of a SASL bind
     hist(("s", rx(bind_req(1, sasl))), ("s", bind_resp(1, 14)), ("s", rx(ext_req(2))), ("s", ext_resp(2)), ("s", rx(bind_req(3, sasl))), ("s", bind_resp(3, 0)))
     hist(("s", rx(bind_req(1, sasl))), ("s", bind_resp(1, 14)), ("s", bind_resp(1, 0)), ("s", bind_resp(7, 0)), ("s", rx(bind_req(2, sasl))), ("s", bind_resp(2, 0)),
@@ -734,9 +763,18 @@ def run_histories(ctx, prop, n_hist, length, mode="mixed"):
                         import ber as _b
                         return [int.from_bytes(u.kids[0].content, "big", signed=True) for u in _b.parse(b)]
 
+                    def own_codes(b, us):
+                        # result codes of bind responses as the bytes say (own TLV reader), not as the library decoded them
+                        import ber as _b
+                        for u, node in zip(us, _b.parse(b)):
+                            op = node.kids[1]
+                            if u["op"]["k"] == "bindResp" and op.cls == 1 and op.num == 1 and op.kids and (op.kids[0].cls, op.kids[0].num) == (0, 10):
+                                u["op"]["res"]["code"] = int.from_bytes(op.kids[0].content, "big", signed=True)
+
                     if not r.get_remaining_data():
                         q["_single"] = C.msg_to_json(m)
                         q["_single"]["id"] = own_ids(data)[0]
+                        own_codes(data, [q["_single"]])
                     else:
                         # more than one unit: decode every complete unit (own framing), ignore an incomplete tail
                         import ber as _ber
@@ -748,6 +786,7 @@ def run_histories(ctx, prop, n_hist, length, mode="mixed"):
                         if len(us) >= 1:
                             for u, i_ in zip(us, own_ids(data[:pos])):
                                 u["id"] = i_
+                            own_codes(data[:pos], us)
                             q["_units"] = us
                 except BaseException:  # noqa: BLE001
                     pass
